@@ -665,7 +665,10 @@ def split_part(body, operand, sep):
         # the predicate compares the element with the separator constant
         sl = body.slice_op(h["term"]["args"][-1]) if h["term"].get("summary_operand") is not None else None
         ok = sl is not None and sep in [const_value(k) for k in sl.consts] and bool(sl.find_calls(r"PartialEq::eq$") or any(d_["stmt"]["rv"].get("op") == "Eq" for d_ in sl.assigns if d_["stmt"]["rv"]["k"] == "binop"))
-        if not ok or body.slice_op(h["term"]["args"][0]).has_call(r"Iterator::(rev|skip|take|filter)$|rposition$"):
+        # the searched iterator is the subject's own `.iter()`: no stage in between (the subject itself may well be the
+        # element of an outer pipeline that has filter stages)
+        _src, _stages = pipeline_of(body, h["term"]["args"][0])
+        if not ok or [x for x in _stages if x[0] != "into_iter"] or re.search(r"rposition$", c):
             return None
     elif re.search(r"str>::find$", c):
         if const_value(op_const(body.resolve_copy(h["term"]["args"][1])) or {}) != sep:
